@@ -794,3 +794,19 @@ def nontrivial(line, reply):
     if t[0] in ("msolve_v", "msolve_m", "minv"):
         return "%s %s" % (t[0], t[1])
     return "%s %s %s" % (t[0], t[1], t[int(t[1]) + 2] if len(t) > int(t[1]) + 2 else "")
+
+# --- deep theorems (second pass; modules written in their own files, wired here by the lead)
+PROOF_MODULES = PROOF_MODULES + ['Compute.Props.C11Lu', 'Compute.Props.Rounding']
+REQUIRED_THEOREMS = REQUIRED_THEOREMS + ['Cv.C11Lu.luSolve_spec', 'Cv.C11Lu.luSolve_some', 'Cv.C11Lu.lu_pivots_ne_zero_of_nonsingular', 'Cv.C11Lu.lu_solve_nonsingular', 'Cv.C11Lu.matrix_solve_correct', 'Cv.C11Lu.matrix_solveV_correct', 'Cv.C11Lu.matrix_inv_correct', 'Cv.Rounding.forwardSubstitution_backward_error', 'Cv.Rounding.backwardSubstitution_backward_error', 'Cv.Rounding.forwardSubstitution_residual', 'Cv.Rounding.backwardSubstitution_residual', 'Cv.Rounding.choleskySolve_backward_error']
+_np = list(NOT_PROVED)
+_np[0] = 'floating-point rounding of the factorisations (LU / Cholesky backward error) and hence the end-to-end residual bound: decided per run by the exact-arithmetic oracle; the triangular solves DO have proved backward-error bounds in the standard model (Props/Rounding: (T+dT)x = b, |dT| <= gamma_n |T|)'
+_np[1] = 'cholesky_correct (L*L^T = A) and the Cholesky route of `solve` (Props/C01Solve, in progress); the LU route IS proved: P*A = L*U, luSolve solves A x = b for non-singular A, Matrix::solve / inv correct (Props/C11Lu)'
+_np[2] = None
+NOT_PROVED = [x for x in _np if x is not None]
+
+# --- deep theorems (2: solve correctness)
+PROOF_MODULES = PROOF_MODULES + ['Compute.Props.C01Solve', 'Compute.Props.C01SolveApps']
+REQUIRED_THEOREMS = REQUIRED_THEOREMS + ['Cv.C01Solve.luSolveCorrect', 'Cv.C01Solve.solve_correct', 'Cv.C01Solve.route_independence', 'Cv.C01Solve.solveWith_route_independent', 'Cv.C01Solve.solve_eq_inv_mulVec', 'Cv.C01Solve.solveSys_correct', 'Cv.C01Solve.invertMatrix_correct', 'Cv.C01Solve.invertMatrix_two_sided', 'Cv.C01Solve.solve_total', 'Cv.C01Solve.solveSys_total', 'Cv.C01Solve.invertMatrix_total', 'Cv.C01Solve.solve_total_real']
+_np = list(NOT_PROVED)
+_np = [(None if 'cholesky_correct (L*L^T = A) and the Cholesky route' in str(x) else x) for x in _np]
+NOT_PROVED = [x for x in _np if x is not None]
